@@ -1287,6 +1287,12 @@ def int_desc(tries):
         return ", second inversion"
     elif tries == 4:
         return ", third inversion"
+    elif tries == 5:
+        return ", fourth inversion"
+    elif tries == 6:
+        return ", fifth inversion"
+    elif tries == 7:
+        return ", sixth inversion"
 
 
 def determine_polychords(chord, shorthand=False):
